@@ -11,6 +11,7 @@ verus! {
 //@ include prelude/sh_escape_fns.rs
 //@ include prelude/conv_env_types.rs
 //@ include prelude/conv_env_words.rs
+//@ include prelude/conv_flags_spec.rs
 
 // ---------- R2: one stub per write! call site of flags.rs ----------
 // write!(w, "--{}{} ", pfx, name)
@@ -43,63 +44,6 @@ fn vw_flag_sp_i64(w: &mut VWriter, i: &i64) -> (r: ConvertResult)
 fn vw_flag_sp_quoted(w: &mut VWriter, s: String) -> (r: ConvertResult)
     ensures vw_wrote(*old(w), *final(w), seq!['\''] + s@ + seq!['\''] + sp(), r)
 { unimplemented!() }
-
-// ---------- the property's contract ----------
-// the flag word: `--<pfx><name> ` for long names or a non-empty prefix, `-<n> ` for one-character names
-pub open spec fn flag_name_text(pfx: Seq<char>, name: Seq<char>) -> Seq<char> {
-    if name.len() > 1 || pfx.len() > 0 { seq!['-', '-'] + pfx + name + sp() } else { seq!['-'] + name + sp() }
-}
-
-// what follows the flag word: a scalar gives exactly one word (a string: the single-quoted form the POSIX
-// oracle reads back as the value) and the separating blank; NULL gives nothing (the documented bare flag);
-// None: the item is skipped altogether (tuple, list inside a list, env, constraint).
-pub open spec fn flag_value_text(v: Val) -> Option<Seq<char>> {
-    match v {
-        Val::Boolean(b) => Some(bool_word(b) + sp()),
-        Val::Int(i) => Some(disp_i64(i) + sp()),
-        Val::Float(f) => Some(disp_f64(f) + sp()),
-        Val::Str(s) => Some(sh_squote(s@) + sp()),
-        Val::Empty => Some(Seq::<char>::empty()),
-        _ => None,
-    }
-}
-
-// one scalar field / one list item: flag word then value word; a skipped item emits NOTHING
-pub open spec fn flag_item(pfx: Seq<char>, name: Seq<char>, v: Val) -> Seq<char> {
-    match flag_value_text(v) {
-        Some(t) => flag_name_text(pfx, name) + t,
-        None => Seq::<char>::empty(),
-    }
-}
-
-// a list field: its items in order, the flag word repeated for each
-pub open spec fn flag_list(pfx: Seq<char>, name: Seq<char>, items: Seq<Rc<Val>>) -> Seq<char>
-    decreases items.len()
-{
-    if items.len() == 0 {
-        Seq::<char>::empty()
-    } else {
-        flag_list(pfx, name, items.drop_last()) + flag_item(pfx, name, *items.last())
-    }
-}
-
-pub open spec fn flag_field(pfx: Seq<char>, name: Seq<char>, v: Val) -> Seq<char> {
-    match v {
-        Val::List(items) => flag_list(pfx, name, items@),
-        _ => flag_item(pfx, name, v),
-    }
-}
-
-// the concatenation over the fields IN ORDER
-pub open spec fn flag_fields(pfx: Seq<char>, flds: Seq<(Rc<str>, Rc<Val>)>) -> Seq<char>
-    decreases flds.len()
-{
-    if flds.len() == 0 {
-        Seq::<char>::empty()
-    } else {
-        flag_fields(pfx, flds.drop_last()) + flag_field(pfx, flds.last().0@, *flds.last().1)
-    }
-}
 
 // ---------- composition with the POSIX oracle ----------
 // For ALL prefixes/names made of ordinary characters, ALL string values s and ANY following text: the shell
